@@ -575,7 +575,7 @@ var _ = fhir.IsID
 
 func TestC19(t *testing.T) {
 	r := newRec("C19",
-		"four generators: (identity) all 146 resource type names × ids/versions over the FHIR id alphabet (length 1..64, special ids such as '_history', '.', '-') × base URLs {none, http/https, port, nested path, %/$ characters, base ending in a type name}: every formatter of resource.Identity / LiteralInfo and every parser (LiteralInfoFromURI, IdentityFromURL/AbsoluteURL/RelativeURI, resource.NewIdentityFrom[History]URL) must round-trip, strong (TypedFromIdentity/Typed) and weak references must parse to equal information, compare as the same reference and read back through FHIRPath `reference` as the same string; (strings) valid forms {relative, versioned, absolute, fragment, '#', URN, canonical |version #fragment, redundant slashes, ''} with 0..4 byte edits incl. hostile tokens: every parser returns a value or an error, accepted strings are parse-format-parse stable and format back to themselves when they have no redundant slashes; (is-laws) triples over a 2×2×2 identity space × forms {strong, weak, absolute weak, fragment+type, identifier, display, URN}: reflexive, symmetric, transitive on resolvable references, equal to identity equality; (canonical) url|version#fragment over the documented alphabets.  non-trivial = ≥ 2 components (version/base/fragment), an accepted string with ≥ 2 slashes or a rejected one longer than 3 bytes, a triple with at least one equal pair; distinct = FNV-64 of the case",
+		"four generators: (identity) all 146 resource type names × ids/versions over the FHIR id alphabet (length 1..64, special ids such as '_history', '.', '-') × base URLs {none, http/https, port, nested path, %/$ characters, base ending in a type name, generated scheme://segment(/segment)* over the documented alphabet, and the same with characters from outside it - those may be refused, but an accepted base must round-trip}; in the Is-laws stage every literal form may also carry one of two logical identifiers and a display text: every formatter of resource.Identity / LiteralInfo and every parser (LiteralInfoFromURI, IdentityFromURL/AbsoluteURL/RelativeURI, resource.NewIdentityFrom[History]URL) must round-trip, strong (TypedFromIdentity/Typed) and weak references must parse to equal information, compare as the same reference and read back through FHIRPath `reference` as the same string; (strings) valid forms {relative, versioned, absolute, fragment, '#', URN, canonical |version #fragment, redundant slashes, ''} with 0..4 byte edits incl. hostile tokens: every parser returns a value or an error, accepted strings are parse-format-parse stable and format back to themselves when they have no redundant slashes; (is-laws) triples over a 2×2×2 identity space × forms {strong, weak, absolute weak, fragment+type, identifier, display, URN}: reflexive, symmetric, transitive on resolvable references, equal to identity equality; (canonical) url|version#fragment over the documented alphabets.  non-trivial = ≥ 2 components (version/base/fragment), an accepted string with ≥ 2 slashes or a rejected one longer than 3 bytes, a triple with at least one equal pair; distinct = FNV-64 of the case",
 		"TypedFromIdentity is documented to panic on identities that jsonformat cannot normalise; only valid identities are passed to it")
 	runProperty(t, r,
 		Stage[c19IDCase]{Name: "identity", Gen: c19GenID, Run: c19RunID, N: pick(18000, 200000)},
